@@ -244,9 +244,11 @@ def for_programs():
         done = set()
         # (1) all sequences of length <= 2 over the core pool, scheme `loop`, ambient context
         for seq in seqs(core_tags, 2, binds):
-            core = (key in HEADERS_MAIN_Q and 'nestsame' not in seq[:len(seq) - 1 or 1] and
-                    not (len(seq) == 2 and 'nestsame' in seq)) or ((q_header or q_static) and len(seq) == 1) or \
+            core = (key in HEADERS_MAIN_Q and (len(seq) == 1 or 'nestsame' not in seq)) or \
+                ((q_header or q_static) and len(seq) == 1) or \
                 (q_static and seq in (('mut', 'acc'), ('acc', 'mut'), ('nest', 'acc'), ('ret', 'acc')))
+            if is_static and not q_static and len(seq) == 2 and any('nested' in pool[t][3] for t in seq):
+                continue      # quadratic-cost bodies: four static headers only
             emit(hdr, seq, pool, 'loop', None, core)
             done.add((seq, 'loop', None))
         # (2) every single statement under the naming schemes and ambient contexts
@@ -270,15 +272,15 @@ def for_programs():
                 done.add(((tag,), scheme, wrap))
         # (3) all sequences of length 2 over the whole pool, main headers and one static one
         sch = 'iter' if kindof(hdr) in ('zip', 'enumerate', 'enumerate-zip') else 'loop'
-        if key in ('xs', 'zip', 'enumzip', 'range', 'loc5'):
+        if key in ('xs', 'enumzip', 'loc5'):
             for seq in seqs(avail, 2, binds):
                 if (seq, sch, None) not in done:
                     emit(hdr, seq, pool, sch, None, False)
                     done.add((seq, sch, None))
         # (4) length 3 over the core pool
-        if key in ('xs', 'enumzip', 'loc5'):
+        if key in ('xs', 'enumzip'):
             for seq in seqs(core_tags, 3, binds):
-                if len(seq) == 3:
+                if len(seq) == 3 and sum(1 for t in seq if 'nested' in pool[t][3]) <= 1:
                     emit(hdr, seq, pool, sch, None, False)
         # (5) core sequences of length 2 under a narrow context
         for seq in seqs(core_tags, 2, binds):
@@ -349,7 +351,7 @@ def while_programs():
                     emit(ckey, cond, (tag,), scheme, None, incr_last, scheme == 'iter' and ckey != 'acc')
             for tag in core_tags:
                 emit(ckey, cond, (tag,), 'loop', 'fix2', incr_last, ckey == 'guard' and incr_last)
-            if full:
+            if full and ckey != 'acc':
                 for seq in itertools.permutations(avail, 2):
                     if _useful(seq) and not all(t in core_tags for t in seq):
                         emit(ckey, cond, seq, 'iter', None, incr_last, False)
